@@ -38,6 +38,8 @@ var c18Magnitudes = []string{
 	"1e39", "-1e39", "1e300", "-1e300",
 	"0.5", "-0.5", "1.9", "-1.9", "0.1", "2147483647.5", "2147483648.5", "-2147483648.5", "-2147483649.5",
 	"1e-46", "5e-324",
+	// fractions one unit in the last place below an integer (what decimal arithmetic such as 19.99*100 produces)
+	"2.9999999999999996", "-2.9999999999999996", "0.9999999999999999", "1998.9999999999998", "999999.9999999999", "-0.9999999999999999",
 }
 
 var c18Odd = []string{" 1 ", "0x10", "1_000", "+5", "-0", "1.0", "1e3", "1E3", "1e400", "-1e400", "NaN", "Inf", "-Inf", "+Inf", "infinity", "0b11", "0o17", "١", "1,000", "1.", ".5", "1e", "--1",
